@@ -341,5 +341,56 @@ pub fn run(ctx: &mut Ctx) {
         }
         ctx.stat("tls_hosts_case");
     }
+    // every pair of host classes sharing a name, a name twice inside each class, and the unloadable certificate in each class:
+    // all refused; the same entries with distinct names: accepted (built settings, and deserialised ones through Core::new)
+    let classes = ["main_hosts", "ping_hosts", "speedtest_hosts", "reverse_proxy_hosts"];
+    let build = |names: [Vec<(&str, &str)>; 4]| {
+        let v = |l: &Vec<(&str, &str)>| l.iter().map(|(n, p)| mk(n, p)).collect::<Vec<_>>();
+        TlsHostsSettings::builder().main_hosts(v(&names[0])).ping_hosts(v(&names[1])).speedtest_hosts(v(&names[2])).reverse_proxy_hosts(v(&names[3])).build()
+    };
+    for a in 0..4 {
+        for b in a..4 {
+            let mut names: [Vec<(&str, &str)>; 4] = [vec![("m.example", FIXTURE_PEM)], vec![], vec![], vec![]];
+            names[a].push(("dup.example", FIXTURE_PEM));
+            names[b].push(("dup.example", FIXTURE_PEM));
+            if build(names.clone()).is_ok() {
+                ctx.oracle_failure("tls_hosts_validation", &format!("host name dup.example configured in {} and in {}: the TLS host settings were accepted", classes[a], classes[b]));
+            }
+            // control: the same shape with distinct names is fine
+            let mut names2: [Vec<(&str, &str)>; 4] = [vec![("m.example", FIXTURE_PEM)], vec![], vec![], vec![]];
+            names2[a].push(("one.example", FIXTURE_PEM));
+            names2[b].push(("two.example", FIXTURE_PEM));
+            if build(names2).is_err() {
+                ctx.oracle_failure("tls_hosts_validation", &format!("distinct host names in {} and {} were refused", classes[a], classes[b]));
+            }
+            // deserialised (not built) settings are validated when the endpoint starts
+            let mut t = String::new();
+            for (k, l) in names.iter().enumerate() {
+                for (n, pem) in l {
+                    t.push_str(&format!("[[{}]]\nhostname = \"{}\"\ncert_chain_path = \"{}\"\nprivate_key_path = \"{}\"\n\n", classes[k], n, pem, pem));
+                }
+            }
+            if let Ok(hs) = toml::from_str::<TlsHostsSettings>(&t) {
+                let st = Settings::builder()
+                    .listen_address(("127.0.0.1", 1))
+                    .unwrap()
+                    .listen_protocols(trusttunnel::settings::ListenProtocolSettings { http1: Some(trusttunnel::settings::Http1Settings::builder().build()), http2: None, quic: None })
+                    .build()
+                    .unwrap();
+                if Core::new(st, None, hs, Shutdown::new()).is_ok() {
+                    ctx.oracle_failure("tls_hosts_validation", &format!("host name dup.example configured in {} and in {} (hosts file): the endpoint started", classes[a], classes[b]));
+                }
+            }
+            ctx.stat("tls_hosts_duplicate_pairs");
+        }
+    }
+    for a in 0..4 {
+        let mut names: [Vec<(&str, &str)>; 4] = [vec![("m.example", FIXTURE_PEM)], vec![], vec![], vec![]];
+        names[a].push(("bad.example", garbage.as_str()));
+        if build(names).is_ok() {
+            ctx.oracle_failure("tls_hosts_validation", &format!("an unloadable certificate in {} was accepted", classes[a]));
+        }
+        ctx.stat("tls_hosts_case");
+    }
     let _ = std::fs::remove_dir_all(&dir);
 }
